@@ -58,6 +58,7 @@ def check(rep, ctx):
     # every syntactic read of the decode modules is covered by the path analysis as a checked read
     R_S = rep.rule("C06-b-sites", "every read call written in the decode modules is reached by the path analysis and is length-checked there", floor=1)
     status = {}
+    unreached = []
     for d, kind, skind, site, detail, n in eng["effects"]:
         if kind == "read":
             status.setdefault(site, set()).add(detail)
@@ -67,7 +68,11 @@ def check(rep, ctx):
             rep.note(f"{r['site']}: read in a function nothing refers to (dead code), not on a decode path")
             continue
         ok = st_ is not None and not any("unchecked-used" in x or "size=None" in x for x in st_) and r["method"] == "read"
-        why = ("is never reached by the path analysis of any reader (it cannot be shown to be length-checked)" if st_ is None
+        if st_ is None and r["method"] == "read" and scan.result_is_tested(ctx, r):
+            # the function does test what it read, the path analysis just cannot follow it: a limit, not a verdict
+            unreached.append(f"{r['site']}: `{r['stmt']}` is tested locally but was not reached by the path analysis")
+            continue
+        why = ("is never reached by the path analysis of any reader and its result is never tested" if st_ is None
                else f"uses {r['method']}()" if r["method"] != "read" else f"is used unchecked ({sorted(st_)})")
         rep.check(R_S, ok, construct=r["function"], stmt=r["stmt"], message=f"the read `{r['stmt']}` {why}: a short result is not turned into "
                   f"BufferUnderflow", file=r["file"], line=r["line"])
@@ -77,6 +82,8 @@ def check(rep, ctx):
                   message="the loop keeps reading until it has enough bytes but never tests the chunk it got: at end of stream read() returns b'' "
                           "forever and the decoder spins instead of raising BufferUnderflow", file=l["file"], line=l["line"])
     rep.count(R_LOOP, 1, instance="scan")
+    if unreached and not rep.findings:
+        raise AnalysisError("; ".join(unreached))
     xr = [a for a in eng["atoms"] if a["kind"] == "xread"]
     if not xr:
         rep.check(R_B, False, construct="kio.serial.readers", stmt="no checked exact read found",
